@@ -244,13 +244,13 @@ def _corpus():
 
 def _rand_global(rng):
     dtype = rng.choice(['uint8', 'uint8', 'uint16', 'uint16', 'uint32', 'uint64'])
-    top = 255 if dtype == 'uint8' else 65535
+    top = 255 if dtype == 'uint8' else rng.choice([65535, 65535, 4095, 1023, 300, 255])
     ndim = rng.choice([1, 2, 2, 2, 3])
     shape = [rng.choice([1, 2, 3, 4, 7, 16]) for _ in range(ndim)]
     n = int(np.prod(shape))
     style = rng.choice(['constant', 'two-level', 'sparse', 'tie', 'zero-dominated', 'dense', 'fullrange', 'few'])
     if style == 'constant':
-        v = rng.choice([0, 1, 2, 7, top])
+        v = rng.choice([0, 1, 2, 7, 255, top])
         data = [v] * n
     elif style == 'two-level':
         a, b = rng.randint(0, top), rng.randint(0, top)
